@@ -11,8 +11,8 @@ import random
 BOUND = {
     "quick": "every .ics file under src/icalendar/tests (calendars, events, alarms, timezones: about 130) single and multiple=True + 300 generated "
              "calendars (nesting <= 3, known / unknown components and properties, all value types, parameters with quoting, values over the "
-             "delimiter alphabet outside the listed finding classes, folding at random places); zoneinfo provider",
-    "thorough": "the same with 3000 generated calendars and both providers",
+             "delimiter alphabet outside the listed finding classes, folding at random places); both providers",
+    "thorough": "the same with 3000 generated calendars",
 }
 DELIMS = list(" ,;:\"'=\\-_%nN/") + ["ä", "€", "x", "y", "1", "\t"]
 
@@ -230,7 +230,7 @@ def run(b, tier, seed, findings, known_seen):
     rnd = random.Random(seed)
     fails = []
     cases = 0
-    provs = ["zoneinfo"] if tier == "quick" else ["zoneinfo", "pytz"]
+    provs = ["zoneinfo", "pytz"]
     for prov in provs:
         icalendar.timezone.tzp.use(prov)
         try:
